@@ -58,8 +58,8 @@ META = {
     "ready": True,
     "category": "proof",
     "technique": "Lean 4: totality/range theorems of the reader (from C12), match-arm coverage and panic-site classification decided over tables regenerated from the Rust sources, and a model of the VM's error unwinding (incl. the call paths that push a frame before it is counted, and the order of the pop_count test and decrement read from vm.rs) / build roll-back with clean-state theorems; plus an exploration of the real engine in crash-isolated child processes (texts: random, grammar-derived, mutated suite scripts; built-ins: every registered procedure on a pool of boundary values, indexed and aliased-argument sweeps up to arity 5; errors raised inside callbacks of every native higher-order built-in discovered at run time) whose oracle is the property itself",
-    "level_text": "Proved (SteelVerif/C07/Props.lean): frontend_total/frontend_spans (reader total, spans in range; re-export of C12); arms_total/arms_total_unary (every pair / every numeric kind reaches a non-panicking arm in each numeric primitive, over tables regenerated from numbers.rs and rvals.rs); panic_sites_classified/reachable_sites_named (each of the ~300 extracted potential panic sites of the primitives is in the hand-reviewed table, reachable ones name their finding); gen_unwind_order(_both)/gen_counted_paths/gen_uncounted_paths_as_modelled (translate/c07_unwind.py: in both unwind loops the pop_count == 0 test precedes the decrement, stack.clear() follows the outer loop, every counted call path counts its frame right after the push, the uncounted paths call_with_one_arg/two_args/args are fallible after the push exactly as the model's callbackArity instruction); for the model of SteelThread::execute (any fuel, program, history; the model includes the call paths that push a frame before it is counted, instruction callbackArity, whose behaviour follows the flag windowOpen read from vm.rs): failed_run_leaves_clean and handled_run_leaves_clean — the FULL statements FailedRunLeavesClean / HandledRunLeavesClean — for the code that exists (windowOpen = false since /repo commit 27b7e09f); failed_run_leaves_clean_partial, handler_run_resumes_clean_partial, failed_forms_keep_completed, history_stays_clean in either configuration under the decidable guard `at most one callback arity error` (ghost counter lost; both stacks empty afterwards, executed definitions kept); run_never_panics without guard; the witnesses that refuted the full statements before the repair are kept for that configuration (windowOpen = true -> counter_*: a callback arity error caught by a call-with-exception-handler handler left pop_count one too low: the evaluation ended a return early, frames stayed after a successful evaluation, a later error left through the pop_count == 0 early return without stack.clear()) — finding K07ai, found by this extension of the model, replayed on the engine by the callback family, repaired by 27b7e09f; regression_handled_callback_arity_errors for the repaired configuration; failed_build_is_noop_partial (parametric in a symbol map whose roll_back restores); FailedBuildIsNoop refuted by a witness replayed on the engine (K07z). The model is tied to the engine by generated programs on every run (incl. callback arity errors under handlers). The property as a whole is partial: panic-freedom of 100k lines of Rust is explored (oracle = the property), not proved; every open failure class is a KNOWN_FINDINGS entry.",
-    "level_note": "Trusted: Lean kernel, translators (regex extraction), harness, orchestrator. Not modelled: everything outside the reader, the numeric dispatch tables and the recovery machine; nested VM instances are represented by their effect on the counters (a callback of the right arity is a value or a failing primitive); native stack size; allocation failure; the JIT.",
+    "level_text": "Proved (SteelVerif/C07/Props.lean): frontend_total/frontend_spans (reader total, spans in range; re-export of C12); arms_total/arms_total_unary/arm_exemptions_needed/arm_tables_present (every pair / every numeric kind reaches a non-panicking arm in EVERY match that dispatches on numeric variants in numbers.rs, rvals.rs and strings.rs — 60 dispatches found by scanning the sources, not a list of names: + - *, the nine integer divisions, expt, log, =, the order, negate, reciprocal, abs, sqrt, exact-integer-sqrt, rounding, predicates, trigonometry, exact/inexact, number->string's format_number; two kinds are exempted with a written reason: the imaginary component of a complex number is real); op_entry_points_covered (the functions behind the VM's arithmetic / comparison op codes and the registered + - * / = < > <= >=, names taken from C10's GenOps.lean, reach only covered tables); panic_sites_classified/reachable_sites_named (each of the 318 extracted potential panic sites of primitives/**/*.rs and steel_vm/primitives.rs — unwrap, expect, panic!, unreachable!, todo!, unimplemented!, assert!, debug_assert!, unchecked accessors, as usize, x[i], x[a..b], and calls of methods that panic out of range such as split_off / swap / remove / insert / windows / borrow_mut — is in the hand-reviewed table under a key that survives line shifts; a new or edited site breaks the obligation); gen_unwind_order(_both)/gen_counted_paths/gen_uncounted_paths_as_modelled (translate/c07_unwind.py: in both unwind loops the pop_count == 0 test precedes the decrement, stack.clear() follows the outer loop, every counted call path counts its frame right after the push, the uncounted paths call_with_one_arg/two_args/args are fallible after the push exactly as the model's callbackArity instruction); for the model of SteelThread::execute (any fuel, program, history; the model includes the call paths that push a frame before it is counted, instruction callbackArity, whose behaviour follows the flag windowOpen read from vm.rs): failed_run_leaves_clean and handled_run_leaves_clean — the FULL statements FailedRunLeavesClean / HandledRunLeavesClean — for the code that exists (windowOpen = false since /repo commit 27b7e09f); failed_run_leaves_clean_partial, handler_run_resumes_clean_partial, failed_forms_keep_completed, history_stays_clean in either configuration under the decidable guard `at most one callback arity error` (ghost counter lost; both stacks empty afterwards, executed definitions kept); run_never_panics without guard; native_callback_keeps_invariant / native_callback_restores_frames (Nested.lean: the nested VM instance that runs a closure called from native code — call_with_one_arg + call_with_instructions_and_reset_state with its own unwind loop — leaves the enclosing instance, at any nesting depth, with its pop_count and invariant intact whatever the callback's body does: the soundness of representing callbacks by a value / a failing primitive / callbackArity); the witnesses that refuted the full statements before the repair are kept for that configuration (windowOpen = true -> counter_*: a callback arity error caught by a call-with-exception-handler handler left pop_count one too low: the evaluation ended a return early, frames stayed after a successful evaluation, a later error left through the pop_count == 0 early return without stack.clear()) — finding K07ai, found by this extension of the model, replayed on the engine by the callback family, repaired by 27b7e09f; regression_handled_callback_arity_errors for the repaired configuration; failed_build_is_noop_iff (EXACT decidable guard, parametric in a symbol map whose roll_back restores: a failing build changes nothing observable iff the roll-back gives the macro environment back — flag buildRestoresMacros read from compile_raw_program / raw_program_to_executable — or it failed in the parser, or no executed op put a macro into the global macro map), failed_build_is_noop_partial, failed_build_is_noop (full, for buildRestoresMacros = true), and for the code that exists (false) not_FailedBuildIsNoop with decided witnesses counter_macro_survives (top-level define-syntax: K07z) and counter_required_macro_survives (macros of a required module: C14's K14f), both replayed on the engine by directed histories. The model is tied to the engine by generated programs on every run (incl. callback arity errors under handlers). The property as a whole is partial: panic-freedom of 100k lines of Rust is explored (oracle = the property), not proved; every open failure class is a KNOWN_FINDINGS entry.",
+    "level_note": "Trusted: Lean kernel, translators (regex extraction), harness, orchestrator. Not modelled: everything outside the reader, the numeric dispatch tables and the recovery machine; the operand stack inside nested VM instances (only frames and counters are proved restored); native stack size; allocation failure; the JIT.",
 }
 
 BIN = C.bin_path("c07")
@@ -262,7 +262,13 @@ FINDING_CLASSES = [
     ("engine-jit-memory-never-released",
      [r"engines:panic:crates/steel-core/src/jit2/cgen\.rs:.*", r"engines:panic:.*jit\.rs:jit_compile_lambda", r"engines:mappings-never-released"]),
     ("uncounted-callback-frame-discounted-by-handler", [r"callback:handled-arity-error:ends-two-frames-early"]),
-    ("macro-of-failed-program-stays-defined", [r"history:macro-of-failed-program-is-not-defined"]),
+    # one root cause (a failed build does not give the global macro map back), seen through a top-level define-syntax
+    # (K07z) and through the macros of a required module (C14's K14f)
+    ("macro-of-failed-program-stays-defined", [r"history:macro-of-failed-program-is-not-defined",
+                                               r"history:macro-of-required-module-of-(failed-program|program-failing-in-expansion)-is-not-in-scope"]),
+    # (C01's K01m: the compiler emits the deprecated ALLOC / SETALLOC / READALLOC op codes, whose handlers panic)
+    ("deprecated_alloc_opcodes_emitted_and_panic",
+     [r"(panic|abort:panic-cannot-unwind|thread-panic):crates/steel-core/src/steel_vm/(vm|vm/jit)\.rs:(alloc_handler|read_alloc_handler|set_alloc_handler)"]),
     ("continuation-of-finished-evaluation", [r"history:continuation-of-earlier-.*"]),
 ]
 
@@ -472,7 +478,9 @@ def alias_call_text(module, name, arity, k):
             % (e, e, " ".join(args), head))
 
 
-def run_builtins(ctx, classes, stats):
+def run_builtins(ctx, classes, stats, focus=()):
+    """focus: names of built-ins that get the thorough sweeps whatever the tier (the directed search when the panic-site
+    table has unclassified entries in their functions)"""
     fns = list_builtins()
     pool = pool_exprs()
     n = len(pool)
@@ -487,6 +495,7 @@ def run_builtins(ctx, classes, stats):
             continue
         if " " in name:
             continue
+        base_quick, quick = quick, (quick and name not in focus)
         for a in arities_for(arity, quick):
             # arity 3: pairwise in the quick tier and for procedures of unknown arity, exhaustive otherwise
             mode = 1 if (a == 3 and (quick or arity == "?")) else 0
@@ -514,12 +523,13 @@ def run_builtins(ctx, classes, stats):
                 continue
             per = alias_base(a) ** a
             nf = len(fresh_exprs())
-            w = (sum(map(ord, name)) + a + ctx.seed) % 2
-            if a == 5:
-                for c in (ALIAS_QUICK_COLLECTIONS if quick else range(nf)):
-                    jobs.append((name, module, a, 3, c * per, (c + 1) * per, w))
-            else:
-                jobs.append((name, module, a, 3, 0, nf * per, w))
+            for w in ([(sum(map(ord, name)) + a + ctx.seed) % 2] if quick else [0, 1]):
+                if a == 5:
+                    for c in (ALIAS_QUICK_COLLECTIONS if quick else range(nf)):
+                        jobs.append((name, module, a, 3, c * per, (c + 1) * per, w))
+                else:
+                    jobs.append((name, module, a, 3, 0, nf * per, w))
+        quick = base_quick
     stats["sweep_jobs_top_level"] = sum(1 for j in jobs if j[6] == 0)
     stats["sweep_jobs_in_module"] = sum(1 for j in jobs if j[6] == 1)
     stats["builtins"] = len(fns)
@@ -1134,7 +1144,14 @@ def gen_rec_expr(r, d):
     Shapes are chosen so that the model's frames are real frames of the VM: the operator of a call is a computed value
     (an immediately applied lambda is compiled as a `let`, a known same-unit procedure may be inlined), and every
     frame-pushing expression sits in operand position of `(+ 0 _)` (a call in tail position re-uses the frame)."""
-    k = r.randrange(13) if d > 0 else r.choice([0, 0, 0, 9, 11])
+    k = r.randrange(16) if d > 0 else r.choice([0, 0, 0, 9, 11])
+    if k >= 13:
+        # a callback of the RIGHT arity run by a nested VM instance (call_with_one_arg +
+        # call_with_instructions_and_reset_state): for the counters it is a value or a failing primitive
+        # (Nested.lean, native_callback_keeps_invariant) — a value, an error, an error caught inside the callback
+        cb, m = [("(+ x 1)", "P0"), ("(car 5)", "F1"),
+                 ("(call-with-exception-handler (lambda (e) 3) (lambda () (car 5)))", "P0")][k - 13]
+        return "(car (transduce (list 7) (mapping (lambda (x) %s)) (into-list)))" % cb, m
     if k >= 11:
         # a callback of the wrong arity called by a native higher-order procedure: the frame is pushed, not counted,
         # and left behind (model instruction `A`; call_with_one_arg / call_with_two_args in vm.rs)
@@ -1477,6 +1494,13 @@ HISTORIES = [
     ("macro-of-failed-program-is-not-defined",
      [("T", "(define-syntax c07-foo (syntax-rules () [(_ a) (+ a 1)])) (c07-undefined-thing 1)", ("error", "FreeIdentifier")),
       ("X", "(c07-foo 1)", ("error", ""))]),
+    # (the module file is written by run_histories; {MODS} is its directory)
+    ("macro-of-required-module-of-failed-program-is-not-in-scope",
+     [("T", "(require \"{MODS}/c07-hist-macros.scm\") (c07-undefined-thing 1)", ("error", "FreeIdentifier")),
+      ("X", "(c07-mq 1)", ("error", ""))]),
+    ("macro-of-required-module-of-program-failing-in-expansion-is-not-in-scope",
+     [("T", "(require \"{MODS}/c07-hist-macros.scm\") (let ((x)) x)", ("error", "")),
+      ("X", "(c07-mq 1)", ("error", ""))]),
     ("handler-not-a-closure-twice",
      [("T", "(define (c07-h x) (list x (call-with-exception-handler list (lambda () (error \"x\")))))", None),
       ("T", "(list 1 2 3 (c07-h 5))", ("error", "")), ("T", "(list 1 2 3 (c07-h 5))", ("error", "")),
@@ -1530,7 +1554,9 @@ def runtime_symbol_histories(ctx):
 def run_histories(ctx, classes, stats):
     out = os.path.join(SCRATCH, "hist.out")
     n_ok = 0
-    hists = list(HISTORIES) + runtime_symbol_histories(ctx)
+    with open(os.path.join(MODS, "c07-hist-macros.scm"), "w") as f:
+        f.write("(provide c07-mq)\n(define-syntax c07-mq (syntax-rules () [(_ a) (+ a 1)]))\n")
+    hists = [(n, [(k, t.replace("{MODS}", MODS), e) for (k, t, e) in steps]) for (n, steps) in HISTORIES] + runtime_symbol_histories(ctx)
     # the multi-evaluation replays of the findings are histories too (no expectation beyond the property itself)
     listed = listed_finding_ids()
     for p in sorted(glob.glob(os.path.join(C.VERIF, "findings", "C07-K07*.txt"))):
@@ -1912,12 +1938,44 @@ def slug(key):
 
 
 def load_known(ctx):
-    """class -> (id, description) of the open findings of this property in KNOWN_FINDINGS.txt"""
+    """class -> (id, description) of the open findings of this property in KNOWN_FINDINGS.txt, and of the open findings
+    of other properties whose entry says that they are C07 violations too (`also C07` / `a C07 violation`): a panic that
+    another property's check found and listed is attributed to that entry, not reported as new"""
     known = {}
     for k in ctx.load_known():
         if "class" in k:
-            known[k["class"]] = (k.get("id", "?"), k["text"].split(" ", 5)[-1])
+            known[k["class"]] = (k.get("id", "?"), k["text"].split(" ", 5)[-1], k.get("replay", "findings/C07-%s.txt" % k.get("id", "?")))
+    try:
+        for line in open(os.path.join(C.VERIF, "KNOWN_FINDINGS.txt"), encoding="utf-8", errors="replace"):
+            line = line.strip()
+            if not line.startswith("finding:") or "property=C07" in line:
+                continue
+            if not re.search(r"\balso(?: a)? C07\b|\bC07 violation\b|\(also[^)]*\bC07\b", line, re.I):
+                continue
+            kv = dict(re.findall(r"(\w+)=(\S+)", line))
+            if "class" in kv and kv["class"] not in known:
+                known[kv["class"]] = (kv.get("id", "?"), "[%s] " % kv.get("property", "?") + line.split(" ", 5)[-1], kv.get("replay", "?"))
+    except OSError:
+        pass
     return known
+
+
+def unclassified_site_builtins(ctx, t_info, stats):
+    """the directed search for a NEW potential panic site: the built-ins whose Rust functions contain a site that the
+    reviewed table does not know (driver `tables`: `unclassified <id> <kind> <fn> <file:line> ..`) are swept with the
+    thorough sweeps (exhaustive arity 3, both applying loops, every fresh collection of the indexed / aliased sweeps)"""
+    rc, out, err = C.run_bin([C.driver_path("c07driver"), "tables"], "", timeout=120)
+    names = set()
+    fns = []
+    fn_names = (t_info or {}).get("fn_names", {})
+    for l in out.splitlines():
+        f = l.split(" ")
+        if f[0] == "unclassified" and len(f) >= 4:
+            fns.append(f[3])
+            names.update(fn_names.get(f[3], []))
+    stats["unclassified_site_functions"] = sorted(set(fns))
+    stats["directed_search_builtins"] = sorted(names)
+    return names
 
 
 def check_site_table(ctx, classes, stats):
@@ -1963,8 +2021,8 @@ def decide(ctx, classes, known, stats):
     for key in sorted(classes.by):
         c = classes.by[key]
         if key in known:
-            kid, what = known[key]
-            ctx.known_finding("id=%s class=%s replay=findings/C07-%s.txt %s (seen %d times)" % (kid, key, kid, what[:200], c["count"]))
+            kid, what, rep = known[key]
+            ctx.known_finding("id=%s class=%s replay=%s %s (seen %d times)" % (kid, key, rep, what[:200], c["count"]))
             continue
         new += 1
         body = "#!c07 class: %s\n#!c07 detail: %s\n#!c07 sources: %s\n%s\n" % (key, c["detail"].replace("\n", " ")[:600], c["sources"], c["replay"])
@@ -2117,7 +2175,8 @@ def run(ctx):
 
     # (ii) built-ins
     t1 = time.time()
-    run_builtins(ctx, classes, stats)
+    focus = unclassified_site_builtins(ctx, t_info if t_ok else {}, stats)
+    run_builtins(ctx, classes, stats, focus=focus)
     stats["builtins_wall_s"] = round(time.time() - t1, 1)
 
     engines_verdict(ctx, classes, stats, eng_threads, eng_res)
